@@ -1,6 +1,6 @@
 (* C04 - a run always ends in a valid exit status and never leaks a handler failure.
-   run catch debug render_ok listeners outcome; render_ok = the error-report renderer returned (the full
-   trace renderer is outside the model: that it always returns is examined by the correspondence run and C20). *)
+   run catch debug render_ok listeners outcome; render_ok = the error-report renderer returned.  The first theorems
+   take render_ok = true; below it is discharged: the renderer is C20's model (Model/Trace.v) and always returns. *)
 From Clikit Require Import Base.Prelude Base.Res Model.Conv Model.Run Proofs.RunLemmas.
 
 (* For EVERY handler outcome, verbosity and listener list: with exception catching on, a run returns an
@@ -44,36 +44,37 @@ Print Assumptions keyboard_interrupt_status.
 (* ---- the renderer hypothesis discharged: proofs in Proofs/RunTraceLemmas.v ----
    render_ok is no longer assumed: it is report_ok c o x sols simple = "ExceptionTrace.render (Model/Trace.v, render_sol)
    returned", for the error output o, the verbosity / directories c, and - inputs, universally quantified - the exn_case x
-   of the raised exception (class name, message, frames with the token streams tokenize delivers for them) and the
-   solutions sols found for it.  Run.v's exn says only whether the exception is KeyboardInterrupt and whether it is a
-   CliKitException (then the report is the simple one).
-   Hypotheses: o is an ordinary output (not a section) with an ANSI or plain formatter whose style stack is empty and
-   whose style table resolves "error" and "b" (out_ok, resolvable); tokenize did not fail where the full report needs it
-   (render_cond c x - nothing is asked for library exceptions); when o decorates, the texts hold no ESC. *)
+   of the raised exception (class name, message, frames with the token streams tokenize delivers for them, or the fact
+   that tokenize / reading the file raised) and the solutions sols found for it.  Run.v's exn says only whether the
+   exception is KeyboardInterrupt and whether it is a CliKitException (then the report is the simple one).
+   Hypotheses that remain: o is an ordinary output (not a section) with an ANSI or plain formatter whose style stack is
+   empty and whose style table resolves "error" and "b" (out_ok, resolvable); when o decorates, the texts hold no ESC
+   (inputs_ne, sol_ne).  NO hypothesis on tokenize: since fix caca46b the renderer catches what reading / tokenizing a
+   source raises (C20: report_lines_always_exist, render_never_fails_unconditionally). *)
 From Clikit Require Import Model.Markup Model.OutputM Model.Trace Proofs.MarkupLemmas Proofs.OutputLemmas Proofs.TraceLemmas
   Proofs.LiteralLemmas Proofs.TraceRenderLemmas Proofs.TraceSolutionLemmas Proofs.RunTraceLemmas.
 
-(* the renderer returns under these hypotheses; for the full report exactly when tokenize succeeded where it is needed *)
+(* the renderer returns: for every exception case, solutions and report mode *)
 Theorem renderer_returns : forall sty c o x sols simple,
   out_ok sty o -> resolvable sty st_error -> resolvable sty st_b ->
-  (simple = false -> render_cond c x) ->
   (decorated o = true -> inputs_ne c x /\ Forall sol_ne sols) ->
   report_ok c o x sols simple = true.
 Proof. exact report_ok_true. Qed.
 Print Assumptions renderer_returns.
-Theorem full_renderer_returns_iff_tokenize_succeeded : forall sty c o x sols,
-  out_ok sty o -> resolvable sty st_error -> resolvable sty st_b -> (decorated o = true -> inputs_ne c x /\ Forall sol_ne sols) ->
-  (report_ok c o x sols false = true <-> render_cond c x).
-Proof. exact report_ok_full_iff. Qed.
-Print Assumptions full_renderer_returns_iff_tokenize_succeeded.
+(* on an output that does not decorate nothing is asked of the texts either *)
+Theorem renderer_returns_undecorated : forall sty c o x sols simple,
+  out_ok sty o -> resolvable sty st_error -> resolvable sty st_b -> decorated o = false ->
+  report_ok c o x sols simple = true.
+Proof. exact report_ok_plain. Qed.
+Print Assumptions renderer_returns_undecorated.
 
-(* Every exception that reaches run() - raised by the handler, by a pre-handle listener or by int(status) - other than
-   KeyboardInterrupt, with catching on: the report is printed (simple for library errors), the status is 1, NO exception
-   escapes; the handler was invoked as often as handle says (once with passing listeners). *)
+(* THE headline.  EVERY exception that reaches run() - raised by the handler, by a pre-handle listener or by int(status) -
+   other than KeyboardInterrupt, with catching on, whatever its exception case x and the solutions: the report is
+   printed (simple for library errors), the status is 1, NO exception escapes; the handler was invoked as often as handle
+   says (once with passing listeners). *)
 Theorem exception_reported_rendered : forall sty c o x sols debug ls h e calls,
   handle debug ls h = (inr e, calls) -> e_keyboard e = false ->
   out_ok sty o -> resolvable sty st_error -> resolvable sty st_b ->
-  (e_clikit e = false -> render_cond c x) ->
   (decorated o = true -> inputs_ne c x /\ Forall sol_ne sols) ->
   run true debug (report_ok c o x sols (e_clikit e)) ls h
   = {| r_end := Status 1; r_handler_calls := calls; r_reported := true; r_simple := e_clikit e |}.
@@ -83,7 +84,6 @@ Print Assumptions exception_reported_rendered.
 Theorem handler_exception_reported_rendered : forall sty c o x sols debug ls e,
   listeners_pass ls -> e_keyboard e = false ->
   out_ok sty o -> resolvable sty st_error -> resolvable sty st_b ->
-  (e_clikit e = false -> render_cond c x) ->
   (decorated o = true -> inputs_ne c x /\ Forall sol_ne sols) ->
   run true debug (report_ok c o x sols (e_clikit e)) ls (Raise e)
   = {| r_end := Status 1; r_handler_calls := 1; r_reported := true; r_simple := e_clikit e |}.
@@ -93,7 +93,7 @@ Print Assumptions handler_exception_reported_rendered.
 Theorem unconvertible_result_reported_rendered : forall sty c o x sols debug ls v,
   listeners_pass ls -> truthy v = true -> to_int v = None ->
   out_ok sty o -> resolvable sty st_error -> resolvable sty st_b ->
-  render_cond c x -> (decorated o = true -> inputs_ne c x /\ Forall sol_ne sols) ->
+  (decorated o = true -> inputs_ne c x /\ Forall sol_ne sols) ->
   run true debug (report_ok c o x sols false) ls (Ret v)
   = {| r_end := Status 1; r_handler_calls := 1; r_reported := true; r_simple := false |}.
 Proof. exact unconvertible_rendered. Qed.
@@ -102,34 +102,51 @@ Print Assumptions unconvertible_result_reported_rendered.
 Theorem listener_failure_reported_rendered : forall sty c o x sols debug ls h e,
   dispatch_pre ls None = inr e -> e_keyboard e = false ->
   out_ok sty o -> resolvable sty st_error -> resolvable sty st_b ->
-  (e_clikit e = false -> render_cond c x) ->
   (decorated o = true -> inputs_ne c x /\ Forall sol_ne sols) ->
   run true debug (report_ok c o x sols (e_clikit e)) ls h
   = {| r_end := Status 1; r_handler_calls := 0; r_reported := true; r_simple := e_clikit e |}.
 Proof. exact listener_failure_rendered. Qed.
 Print Assumptions listener_failure_reported_rendered.
-(* run_status with the renderer discharged: for EVERY handler outcome, verbosity, listener list and report mode *)
+(* run_status with the renderer discharged: for EVERY handler outcome, verbosity, listener list, report mode, exception
+   case and solutions *)
 Theorem run_status_with_renderer : forall sty c o x sols simple debug ls h,
   out_ok sty o -> resolvable sty st_error -> resolvable sty st_b ->
-  render_cond c x -> (decorated o = true -> inputs_ne c x /\ Forall sol_ne sols) ->
+  (decorated o = true -> inputs_ne c x /\ Forall sol_ne sols) ->
   exists s, r_end (run true debug (report_ok c o x sols simple) ls h) = Status s /\ (0 <= s <= 255)%Z.
 Proof. exact run_status_rendered. Qed.
 Print Assumptions run_status_with_renderer.
 Theorem report_printed_iff_exception : forall sty c o x sols simple debug ls h,
   out_ok sty o -> resolvable sty st_error -> resolvable sty st_b ->
-  render_cond c x -> (decorated o = true -> inputs_ne c x /\ Forall sol_ne sols) ->
+  (decorated o = true -> inputs_ne c x /\ Forall sol_ne sols) ->
   (r_reported (run true debug (report_ok c o x sols simple) ls h) = true
    <-> exists e calls, handle debug ls h = (inr e, calls) /\ e_keyboard e = false).
 Proof. exact reported_iff_exception. Qed.
 Print Assumptions report_printed_iff_exception.
-(* the condition on tokenize cannot be dropped: where it fails for an ordinary exception the renderer raises in turn and
-   that exception escapes run() *)
-Theorem renderer_failure_escapes : forall c o x sols debug ls h e calls,
-  handle debug ls h = (inr e, calls) -> e_keyboard e = false -> e_clikit e = false -> ~ render_cond c x ->
+(* The earlier finding renderer_failure_escapes ("where tokenize fails for an ordinary exception the renderer raises in
+   turn and that exception escapes run()") is unreachable now: under the hypotheses on the output the renderer's result is
+   true for EVERY exception case, solutions and report mode ... *)
+Theorem renderer_failure_unreachable : forall sty c o,
+  out_ok sty o -> resolvable sty st_error -> resolvable sty st_b ->
+  forall x sols simple, (decorated o = true -> inputs_ne c x /\ Forall sol_ne sols) -> report_ok c o x sols simple = true.
+Proof. exact renderer_always_returns. Qed.
+Print Assumptions renderer_failure_unreachable.
+(* ... so with catching on no exception escapes run(), whatever the handler, the listeners, the exception and its sources *)
+Theorem nothing_escapes_with_renderer : forall sty c o x sols simple debug ls h,
+  out_ok sty o -> resolvable sty st_error -> resolvable sty st_b ->
+  (decorated o = true -> inputs_ne c x /\ Forall sol_ne sols) ->
+  forall e, r_end (run true debug (report_ok c o x sols simple) ls h) <> Escaped e.
+Proof. exact run_never_escapes. Qed.
+Print Assumptions nothing_escapes_with_renderer.
+(* the case of the finding: an ordinary exception none of whose frames' sources can be read or tokenized *)
+Theorem unreadable_source_exception_reported : forall sty c o x sols debug ls h e calls,
+  handle debug ls h = (inr e, calls) -> e_keyboard e = false -> e_clikit e = false ->
+  Forall (fun f => ~ tok_ok (f_content f) /\ ~ tok_ok (f_linetoks f)) (x_frames x) ->
+  out_ok sty o -> resolvable sty st_error -> resolvable sty st_b ->
+  (decorated o = true -> inputs_ne c x /\ Forall sol_ne sols) ->
   run true debug (report_ok c o x sols (e_clikit e)) ls h
-  = {| r_end := Escaped conversion_error; r_handler_calls := calls; r_reported := false; r_simple := false |}.
-Proof. exact run_escapes_when_tokenize_fails. Qed.
-Print Assumptions renderer_failure_escapes.
+  = {| r_end := Status 1; r_handler_calls := calls; r_reported := true; r_simple := false |}.
+Proof. exact run_reports_unreadable_source. Qed.
+Print Assumptions unreadable_source_exception_reported.
 
 (* the hypotheses are satisfiable: a handler raising  B</error>("<b>x\")  from a.py (two frames, verbose), two solutions
    with nasty texts; on a plain output, and on a decorated one at indentation 4 *)
@@ -139,7 +156,7 @@ Example exception_reported_rendered_plain : forall debug,
   = {| r_end := Status 1; r_handler_calls := 1; r_reported := true; r_simple := false |}.
 Proof.
   intros debug. apply (handler_exception_reported_rendered demo_sty2);
-    [reflexivity|reflexivity|apply demo_out_ok; discriminate|apply demo_error|apply demo_b|intros _; apply ex_cond|].
+    [reflexivity|reflexivity|apply demo_out_ok; discriminate|apply demo_error|apply demo_b|].
   intros H. vm_compute in H. discriminate.
 Qed.
 Example exception_reported_rendered_ansi : forall debug,
@@ -147,15 +164,22 @@ Example exception_reported_rendered_ansi : forall debug,
   = {| r_end := Status 1; r_handler_calls := 1; r_reported := true; r_simple := false |}.
 Proof.
   intros debug. apply (handler_exception_reported_rendered demo_sty2);
-    [reflexivity|reflexivity|apply demo_out_ok; discriminate|apply demo_error|apply demo_b|intros _; apply ex_cond|].
+    [reflexivity|reflexivity|apply demo_out_ok; discriminate|apply demo_error|apply demo_b|].
   intros _. split; [apply ex_inputs_ne|apply ex_sols_ne].
 Qed.
 (* and the report really is printed: the renderer's bytes *)
 Example exception_report_bytes :
   render_sol (demo_cfg false) false (demo_out FPlain false 0) (demo_x [demo_frame]) [ex_s1; ex_s2] = Ok (ex_report ++ ex_block1 ++ ex_block2).
 Proof. exact ex_sol_vm. Qed.
-(* where tokenize rejects the file of the last frame the renderer's own exception escapes *)
-Example renderer_failure_escapes_witness :
+(* where tokenize rejects the file of the last frame (TokError), or the file cannot be read (TokOtherExc): the run that
+   used to let the renderer's own exception escape ends with status 1 and the report - without snippet lines *)
+Example unreadable_source_reported_witness :
   run true false (report_ok (demo_cfg false) (demo_out FPlain false 0) (demo_x [bad_frame]) [] false) [] (Raise ex_exn)
-  = {| r_end := Escaped conversion_error; r_handler_calls := 1; r_reported := false; r_simple := false |}.
-Proof. vm_compute. reflexivity. Qed.
+  = {| r_end := Status 1; r_handler_calls := 1; r_reported := true; r_simple := false |}
+  /\ run true false (report_ok (demo_cfg true) (demo_out FPlain false 0) (demo_x [bad_frame2; bad_frame]) [ex_s1] false) [] (Raise ex_exn)
+  = {| r_end := Status 1; r_handler_calls := 1; r_reported := true; r_simple := false |}.
+Proof. vm_compute. split; reflexivity. Qed.
+Example unreadable_source_report_bytes :
+  render_sol (demo_cfg false) false (demo_out FPlain false 0) (demo_x [bad_frame]) [ex_s1]
+  = Ok (ex_head ++ [10;32;32;97;116;32;97;46;112;121;58;49;32;105;110;32;102;10]%N ++ ex_block1).      (*   at a.py:1 in f *)
+Proof. exact ex_sol_unreadable_vm. Qed.
